@@ -723,7 +723,7 @@ def run_sequence(srv, host, reqs, expect):
                 what = ("GET %s after the preceding requests returned %s; the collection holds %s" %
                         (render(r.src, r.slash).decode("latin-1"),
                          perr or ("%d %r" % (status, body[:40])),
-                         "no such resource" if es == 404 else repr(eb[:40])))
+                         "no such resource" if es == 404 else "a collection there" if eb is None else repr(eb[:40])))
                 return i + 1, dict(kind="oracle", sig="stale-read:after-" + last_mut, what=what, step=i, obs=obs,
                                    model=exp), keys
             if exp is not None and exp != obs:
